@@ -43,6 +43,17 @@ def scenarios(quick):
                 out.append(scenario(st, fns, [start(1), env("CtxCancel", ct, 1)]))
                 out.append(scenario(st, fns, [start(1, 0, True), env("AsyncCancel", ct, 1)]))
                 out.append(scenario(st, fns, [start(1, 0, ct == 1), env("CtxDeadline", ct + 1, 1)]))
+    # everything inside a Timeout that fired is cancelled: a hedge policy whose delay is longer than the limit starts nothing afterwards
+    for coop in (False, True):
+        for oc in (("R1", None), ("R0", "E1")):
+            fns = [[fn(9, oc[0], oc[1], coop)] * 4]
+            out.append(scenario([to(2), hg(2, 3)], fns, [start(1)]))
+            out.append(scenario([to(2), hg(2, 3, c=[cR("R2")])], fns, [start(1)]))
+            out.append(scenario([retry(1, dly=1), to(2), hg(1, 3)], fns, [start(1, 0, True)]))
+            # a zero time limit fires at once
+            out.append(scenario([to(0)], fns, [start(1)]))
+            out.append(scenario([retry(1, dly=1), to(0)], fns, [start(1)]))
+            out.append(scenario([to(0), retry(1, dly=1)], fns, [start(1, 0, True)]))
     for ct in (L + 1, L + 2):
         fns = [[fn(L + 1, "R0", "E1", True), fn(2, "R1", None, True), fn(1, "R1")]]
         out.append(scenario([retry(2, dly=3), to(L)], fns, [start(1, 0, True), env("AsyncCancel", ct, 1)]))
